@@ -3,7 +3,7 @@ import copy, itertools, math
 from fractions import Fraction
 import numpy as np
 import core, gen
-from core import da, Axis, DimArray
+from core import da, Axis, DimArray, Dataset
 from .base import Prop
 
 
@@ -69,6 +69,109 @@ def gen_arrays(rng, n=None, maxrank=3, allow_empty=True, same_dims=False, minn=0
             axes.append({"name": d, "kind": kind, "labels": order_labels(rng, labels, order), "_order": order, "_how": how})
         arrays.append({"axes": axes, "vkind": rng.choice(["f", "f", "i"])})
     return arrays
+
+
+VK_EXTRA = ["b", "O", "U"]      # bool / object / str values: the outer-join fill makes them object arrays
+
+
+def build_arr(ad, k=0):
+    """core.build_array, plus str-valued ('U' dtype) arrays (cell i of array k holds 'v<k>_<i>')"""
+    if ad.get("vkind") == "U":
+        a = core.build_array(dict(ad, vkind="O"), k)
+        b = DimArray(a.values.astype(str), axes=list(a.axes))
+        for key, v in a.attrs.items():
+            b.attrs[key] = v
+        return b
+    return core.build_array(ad, k)
+
+
+def flat_arrays(entries):
+    """array descriptions of an align case in expanded order (a Dataset entry counts for its variables)"""
+    out = []
+    for e in entries:
+        out.extend(e["dataset"] if "dataset" in e else [e])
+    return out
+
+
+def group_dataset(rng, arrays):
+    """turn a run of 1-3 consecutive arrays (each with at least one dimension) into the variables of one Dataset:
+    a Dataset holds ONE axis per dimension, so the first occurrence of a dimension in the run gives the axis of
+    every variable of the run"""
+    ok = [i for i, a in enumerate(arrays) if "dataset" not in a and a["axes"] and not a.get("scalar")]
+    if not ok:
+        return arrays
+    i = rng.choice(ok)
+    j = i
+    while j + 1 in ok and j - i < 2 and rng.random() < 0.6:
+        j += 1
+    run = [copy.deepcopy(a) for a in arrays[i:j + 1]]
+    first = {}
+    for a in run:
+        for n, ax in enumerate(a["axes"]):
+            if ax["name"] in first:
+                a["axes"][n] = copy.deepcopy(first[ax["name"]])
+            else:
+                first[ax["name"]] = ax
+    return arrays[:i] + [{"dataset": run}] + arrays[j + 1:]
+
+
+def f32_exact(l):
+    v = float(Fraction(l[1], l[2]))
+    return float(np.float32(v)) == v
+
+
+def drop_lossy_f32(arrays):
+    # TODO(defect): reindex_axis writes the requested labels into the label array of the input's axis
+    # (`newobj.axes[axis][mask] = values[mask]`, _maybe_cast_type looks at the dtype KIND only), so an array whose
+    # labels are float32 gets the new labels rounded to single precision: align([float32-labelled, float64-labelled])
+    # returns axes that are not identical / have a label twice.  Until that is repaired a dimension carries float32
+    # labels only when every label met on it is a float32 number.
+    lossy = set(ax["name"] for a in arrays for ax in a["axes"]
+                if any(l[0] == "n" and not f32_exact(l) for l in ax["labels"]))
+    for a in arrays:
+        for ax in a["axes"]:
+            if ax["name"] in lossy and ax.get("ldtype") == "float32":
+                del ax["ldtype"]
+
+
+def gen_entries(rng, tier="quick"):
+    """an align case: the plain stream of gen_arrays, and on modest shares of it the other argument forms the
+    statement quantifies over (Datasets, scalars, a tuple, strict=, narrow / unsigned label dtypes, float32 / int32 /
+    bool / object / str values, an axis that is not a name)"""
+    strict = rng.random() < 0.10
+    arrays = gen_arrays(rng, same_dims=strict and rng.random() < 0.6)
+    c = {"op": "align", "arrays": arrays, "join": rng.choice(["outer", "outer", "inner"]), "sort": rng.random() < 0.3}
+    if rng.random() < 0.30:
+        for a in arrays:
+            if rng.random() < 0.7:
+                gen.dtype_variants(rng, a, p=0.5)
+    drop_lossy_f32(arrays)
+    if rng.random() < 0.22:
+        for a in arrays:
+            if rng.random() < 0.6:
+                a["vkind"] = rng.choice(VK_EXTRA)
+                a.pop("vdtype", None)
+    if len(arrays) < 4 and rng.random() < 0.08:
+        # a bare scalar in the list stands for a 0-d array
+        arrays.insert(rng.randint(0, len(arrays)), {"axes": [], "vkind": rng.choice(["f", "i", "b"]), "scalar": rng.choice(["py", "np"])})
+    dims = []
+    for a in arrays:
+        for ax in a["axes"]:
+            if ax["name"] not in dims:
+                dims.append(ax["name"])
+    c["axis"] = rng.choice(dims) if dims and rng.random() < 0.25 else None
+    if strict:
+        c["strict"] = True
+    elif rng.random() < 0.14:
+        c["arrays"] = group_dataset(rng, arrays)
+        if rng.random() < 0.3:
+            c["arrays"] = group_dataset(rng, c["arrays"])      # two Datasets in the list
+    if rng.random() < 0.2:
+        c["container"] = "tuple"
+    if dims and rng.random() < 0.03:
+        c["axis"] = None
+        c["axis_raw"] = rng.choice([0, 1, -1])      # align's axis must be a name
+    return c
 
 
 def lab_key(l):
@@ -164,6 +267,27 @@ def check_align_property(c, inputs, outs, join, sort, axis):
     return sorted(set(bad))
 
 
+def check_datasets(c, io):
+    """a Dataset in the list comes back as a Dataset of the same variables, whose own axes are those of its variables"""
+    bad = []
+    k = 0
+    for e, m_in, m_out in zip(c["arrays"], io["ds_inputs"], io["ds"]):
+        n = len(e["dataset"]) if "dataset" in e else 1
+        if "dataset" in e:
+            if m_out is None or m_out["keys"] != m_in["keys"]:
+                bad.append("dataset.keys")
+            else:
+                for ax in m_out["axes"]:
+                    for o in io["ok"][k:k + n]:
+                        if ax["name"] in o["dims"] and [lab_key(l) for l in o["axes"][o["dims"].index(ax["name"])]["labels"]] != [lab_key(l) for l in ax["labels"]]:
+                            bad.append("axes.labels:dataset")
+                used = set(d for o in io["ok"][k:k + n] for d in o["dims"])
+                if used != set(ax["name"] for ax in m_out["axes"]):
+                    bad.append("dataset.dims")
+        k += n
+    return bad
+
+
 class C06(Prop):
     id = "C06"
     theorems = ["mem_union1d", "nodup_union1d", "union_mem", "union_nodup", "intersection_mem", "intersection_nodup",
@@ -173,8 +297,15 @@ class C06(Prop):
             "dimension label sets equal / overlapping / nested / disjoint / empty, stored increasing / decreasing / "
             "shuffled (a common direction in half of the cases), int/float/str and mixed int/float kinds; join outer/"
             "inner, sort, axis=None or one dimension; plus Axis.union / Axis.intersection observed directly on pairs. "
-            "Non-trivial = at least two arrays sharing a dimension with different labels; distinct = canonical JSON")
-    assumptions = ["labels unique per axis, NaN-free"]
+            "On modest shares of the stream: Datasets in the list (1-3 variables sharing one axis per dimension, up to two "
+            "Datasets), bare scalars, a tuple instead of a list, strict=True (refused when an array lacks an aligned "
+            "dimension), an axis given by position (refused), unsigned / int32 / float32 label dtypes, float32 / int32 / "
+            "bool / object / str values, Fortran memory order. A Dataset is compared through its variables, and its own "
+            "axes against theirs. Non-trivial = at least two arrays sharing a dimension with different labels; "
+            "distinct = canonical JSON")
+    assumptions = ["labels unique per axis, NaN-free",
+                   "float32 labels only on dimensions whose labels are all float32 numbers (open defect: labels rounded by reindex_axis)",
+                   "the KIND of an axis is not compared with the mirror when unsigned labels are present (the mirror reads 'u' as 'i')"]
 
     def mirrors(self):
         import sys as _s
@@ -218,14 +349,7 @@ class C06(Prop):
     def gen(self, rng, tier):
         n = 700 if tier == "quick" else 20000
         for _ in range(n):
-            arrays = gen_arrays(rng)
-            dims = []
-            for a in arrays:
-                for ax in a["axes"]:
-                    if ax["name"] not in dims:
-                        dims.append(ax["name"])
-            yield {"op": "align", "arrays": arrays, "join": rng.choice(["outer", "outer", "inner"]),
-                   "sort": rng.random() < 0.3, "axis": rng.choice(dims) if dims and rng.random() < 0.25 else None}
+            yield gen_entries(rng, tier)
         for _ in range(n // 2):
             kind = rng.choice(["i", "f", "O"])
             base, _ = gen.labels_of_kind(rng, kind, rng.randint(0, 4), "inc")
@@ -233,8 +357,16 @@ class C06(Prop):
             how = rng.choice(["equal", "overlapping", "nested", "disjoint", "empty"])
             b = order_labels(rng, related_labels(rng, kind, base, how), rng.choice(["inc", "dec", "shuf", "inc"]))
             kb = "f" if kind == "i" and rng.random() < 0.2 else kind
-            yield {"op": "union", "a": {"name": "x", "kind": kind, "labels": a}, "b": {"name": "x", "kind": kb, "labels": b},
-                   "join": rng.choice(["outer", "inner"]), "_how": how}
+            c = {"op": "union", "a": {"name": "x", "kind": kind, "labels": a}, "b": {"name": "x", "kind": kb, "labels": b},
+                 "join": rng.choice(["outer", "inner"]), "_how": how}
+            if rng.random() < 0.3:
+                # unsigned / narrow label dtypes on either side (same labels, another representation)
+                for ax in (c["a"], c["b"]):
+                    if ax["kind"] == "i" and rng.random() < 0.6:
+                        ax["ldtype"] = rng.choice(["uint8", "uint16", "int32", "uint64", "int8"])
+                    elif ax["kind"] == "f" and rng.random() < 0.6:
+                        ax["ldtype"] = "float32"
+            yield c
 
     # ------------------------------------------------------------------
     def impl(self, c):
@@ -245,25 +377,76 @@ class C06(Prop):
             if core.obs_axis(a) != sa or core.obs_axis(b) != sb:
                 out["operand_modified"] = True
             return out
-        arrs = [core.build_array(a, k) for k, a in enumerate(c["arrays"])]
-        before = [core.obs_array(a) for a in arrs]
+        objs, k = [], 0
+        for e in c["arrays"]:
+            if "dataset" in e:
+                ds = Dataset()
+                for j, v in enumerate(e["dataset"]):
+                    ds["v%d" % j] = build_arr(v, k)
+                    k += 1
+                objs.append(ds)
+            else:
+                a = build_arr(e, k)
+                k += 1
+                if e.get("scalar"):
+                    a = a.values[()] if e["scalar"] == "np" else a.values[()].item()
+                objs.append(a)
+
+        def observe(objs):
+            """expanded observations (a Dataset gives one per variable) and what the Datasets themselves say"""
+            flat, meta = [], []
+            for e, o in zip(c["arrays"], objs):
+                if "dataset" in e:
+                    if not isinstance(o, Dataset):
+                        raise TypeError("harness: a Dataset did not come back as a Dataset but as %s" % type(o).__name__)
+                    flat.extend(core.obs_array(dict.__getitem__(o, key)) for key in o.keys())
+                    meta.append({"keys": list(o.keys()), "axes": [core.obs_axis(ax) for ax in o.axes]})
+                else:
+                    if "dataset" not in e and isinstance(o, Dataset):
+                        raise TypeError("harness: an array came back as a Dataset")
+                    flat.append(core.obs_array(o))
+                    meta.append(None)
+            return flat, meta
+        before, meta_before = observe(objs)
         kw = {"join": c["join"]}
         if c["sort"]:
             kw["sort"] = True
         if c["axis"]:
             kw["axis"] = c["axis"]
-        out = core.guarded(lambda: [core.obs_array(r) for r in da.align(arrs, **kw)])
-        after = [core.obs_array(a) for a in arrs]
-        if before != after:
+        if c.get("axis_raw") is not None:
+            kw["axis"] = c["axis_raw"]
+        if c.get("strict"):
+            kw["strict"] = True
+        arg = tuple(objs) if c.get("container") == "tuple" else list(objs)
+
+        def run():
+            res = da.align(arg, **kw)
+            if len(res) != len(objs):
+                raise TypeError("harness: %d results for %d inputs" % (len(res), len(objs)))
+            return observe(res)
+        out = core.guarded(run)
+        if "ok" in out:
+            out["ds"] = out["ok"][1]
+            out["ok"] = out["ok"][0]
+        after, meta_after = observe(objs)
+        if before != after or meta_before != meta_after:
             out["operand_modified"] = True
         out["inputs"] = before
+        out["ds_inputs"] = meta_before
         return out
 
     def request(self, c):
         if c["op"] == "union":
             return {"op": "union", "a": gen.clean(c["a"]), "b": gen.clean(c["b"]), "join": c["join"]}
-        return {"op": "align", "arrays": [core.lean_array(gen.clean(a), None) for a in c["arrays"]], "join": c["join"],
-                "sort": c["sort"], "axis": c["axis"]}
+        if c.get("axis_raw") is not None:
+            # the mirror's axis is a name or nothing: this form is decided by the oracle alone
+            return {"op": "union", "a": {"name": "x", "kind": "i", "labels": []}, "b": {"name": "x", "kind": "i", "labels": []}, "join": "outer"}
+        # a Dataset stands for its variables (one axis per dimension, shared by them); a scalar for a 0-d array
+        r = {"op": "align", "arrays": [core.lean_array(gen.clean(a), None) for a in flat_arrays(c["arrays"])], "join": c["join"],
+             "sort": c["sort"], "axis": c["axis"]}
+        if c.get("strict"):
+            r["strict"] = True
+        return r
 
     def judge(self, c, io, ans):
         lean = ans["lib"]
@@ -296,8 +479,16 @@ class C06(Prop):
                 return None
             return {"kind": "P" if prop_bad else "M", "differs": sorted(set(bad + prop_bad)), "impl": io, "lean": lean}
         # align
+        flat = flat_arrays(c["arrays"])
+        if c.get("axis_raw") is not None:
+            # "axis=None or a single dimension" (docstring: must be a string since the axes do not necessarily match):
+            # a position cannot name the dimension to align, the call has to be refused
+            prop_bad = [] if io.get("err") in ("value", "type") else ["outcome"]
+            if io.get("operand_modified"):
+                prop_bad.append("operand_modified")
+            return {"kind": "P", "differs": prop_bad, "impl": io.get("err") or "ok", "msg": io.get("msg")} if prop_bad else None
         if "ok" in lean:
-            envs = core.CellEnv([core.build_array(a, k).values for k, a in enumerate(c["arrays"])])
+            envs = core.CellEnv([build_arr(a, k).values for k, a in enumerate(flat)])
             outs = []
             for lo in lean["ok"]:
                 x = core.lean_obs_to_canon(lo, envs, cast_kind=lo["vkind"] if lo["vkind"] in "fi" else None)
@@ -308,17 +499,28 @@ class C06(Prop):
             elif len(outs) != len(io["ok"]):
                 bad.append("outcome")
             else:
+                # the mirror knows unsigned labels as integers ('u' -> 'i'); the implementation's label-kind widening
+                # (_maybe_cast_type: u <- i gives object) is then not the mirror's: the KIND of such an axis is not compared
+                unsigned = any(ax.get("ldtype", "").startswith("uint") for a in flat for ax in a["axes"])
                 for k, (x, y) in enumerate(zip(io["ok"], outs)):
                     for b in core.diff_obs({"ok": x}, {"ok": y}):
-                        bad.append(b)
+                        if not (b == "axes.kind" and unsigned):
+                            bad.append(b)
         else:
             if "ok" in io:
                 bad.append("outcome")
             elif io["err"] != lean["err"]:
                 bad.append("errclass")
         prop_bad = []
-        if "ok" in io:
+        dims_aligned = [c["axis"]] if c["axis"] else sorted(set(ax["name"] for a in flat for ax in a["axes"]))
+        refused = c.get("strict") and any(d not in [ax["name"] for ax in a["axes"]] for a in flat for d in dims_aligned)
+        if refused:
+            # strict=True (docstring: "check that all arrays have the same dimensions"): nothing to align
+            if io.get("err") != "value":
+                prop_bad = ["outcome"]
+        elif "ok" in io:
             prop_bad = check_align_property(c, io["inputs"], io["ok"], c["join"], c["sort"], c["axis"])
+            prop_bad += check_datasets(c, io)
         else:
             prop_bad = ["outcome:" + io["err"]]
         if io.get("operand_modified"):
@@ -334,13 +536,13 @@ class C06(Prop):
         ids = {f["id"] for f in open_findings}
         if "K05" in ids and c["op"] == "align" and "err" in io and io["err"] == "index":
             # an input with an empty axis on a dimension whose common axis is not empty
-            for d in set(ax["name"] for a in c["arrays"] for ax in a["axes"]):
-                lens = [len(ax["labels"]) for a in c["arrays"] for ax in a["axes"] if ax["name"] == d]
+            for d in set(ax["name"] for a in flat_arrays(c["arrays"]) for ax in a["axes"]):
+                lens = [len(ax["labels"]) for a in flat_arrays(c["arrays"]) for ax in a["axes"] if ax["name"] == d]
                 if 0 in lens and any(l > 0 for l in lens) and "lib" in ans and ans["lib"].get("err") == "index":
                     return "K05"
         if "K06" in ids and c["op"] == "align" and mm["differs"] == ["axes.labels:direction"] and not c["sort"]:
-            for d in set(ax["name"] for a in c["arrays"] for ax in a["axes"]):
-                labs = [ax["labels"] for a in c["arrays"] for ax in a["axes"] if ax["name"] == d]
+            for d in set(ax["name"] for a in flat_arrays(c["arrays"]) for ax in a["axes"]):
+                labs = [ax["labels"] for a in flat_arrays(c["arrays"]) for ax in a["axes"] if ax["name"] == d]
                 singles = [l for l in labs if len(l) == 1]
                 longer = [l for l in labs if len(l) > 1]
                 if len(singles) >= 2 and longer and all(direction(l) == "dec" for l in longer):
@@ -351,7 +553,7 @@ class C06(Prop):
         if c["op"] == "union":
             return c["a"]["labels"] != c["b"]["labels"]
         seen = {}
-        for a in c["arrays"]:
+        for a in flat_arrays(c["arrays"]):
             for ax in a["axes"]:
                 if ax["name"] in seen and seen[ax["name"]] != ax["labels"]:
                     return True
@@ -362,19 +564,33 @@ class C06(Prop):
         f = {"outcome": "err:" + io["err"] if "err" in io else "ok", "op": c["op"], "join": c["join"]}
         if c["op"] == "align":
             f["n_arrays"] = len(c["arrays"]); f["sort"] = c["sort"]; f["axis"] = c["axis"] is not None
-            for a in c["arrays"]:
+            f["container"] = c.get("container", "list"); f["strict"] = bool(c.get("strict"))
+            f["axis_not_a_name"] = c.get("axis_raw") is not None
+            f["datasets"] = sum(1 for e in c["arrays"] if "dataset" in e)
+            f["scalars"] = sum(1 for e in c["arrays"] if e.get("scalar"))
+            for a in flat_arrays(c["arrays"]):
+                f["vkind:" + a.get("vkind", "f")] = 1
+                if a.get("vdtype"):
+                    f["vdtype:" + a["vdtype"]] = 1
+                if a.get("order"):
+                    f["memory:F"] = 1
                 for ax in a["axes"]:
                     f["how:" + ax.get("_how", "?")] = 1
                     f["order:" + ax.get("_order", "?")] = 1
                     f["kind:" + ax["kind"]] = 1
+                    if ax.get("ldtype"):
+                        f["ldtype:" + ax["ldtype"]] = 1
         else:
             f["how"] = c.get("_how")
+            for ax in (c["a"], c["b"]):
+                if ax.get("ldtype"):
+                    f["ldtype:" + ax["ldtype"]] = 1
         return f
 
     def size(self, c):
         if c["op"] == "union":
             return len(c["a"]["labels"]) + len(c["b"]["labels"])
-        return 100 * len(c["arrays"]) + sum(len(ax["labels"]) for a in c["arrays"] for ax in a["axes"])
+        return 100 * len(flat_arrays(c["arrays"])) + sum(len(ax["labels"]) for a in flat_arrays(c["arrays"]) for ax in a["axes"])
 
     def snippet(self, c):
         return ("import sys; sys.path.insert(0, '/verif/harness'); import json, core; from props.c06 import PROP; "
